@@ -102,6 +102,42 @@ add("C11", "F-irdiv", "open",
     trigger="ir-fold-floor-div")
 
 
+C20 = {"opts": {}, "sched": {"seed": 0}}
+add("C20", "F-folded-name", "open",
+    "a named result the IR optimiser folds to a constant is emitted as 'arith_N_folded' and the name appears nowhere: Signal l = k * 2 | \"copper-plate\"",
+    {"kind": "scalar", "prog": Program((Decl("int", "k", Num(3)), Decl("Signal", "l", Proj(Bin("*", Ref("k"), Num(2)), "copper-plate")))), "optimize": True, **C20},
+    trigger="folded-constant-loses-name")
+add("C20", "F-cse-name", "open",
+    "two names bound to equal expressions (Signal v1 = !a; Signal v4 = !a;) are merged by CSE and only the first name is labelled / anchored",
+    {"kind": "cse", "prog": Program((S("a", "signal-A", 0), Decl("Signal", "v1", Un("!", Ref("a"))), Decl("Signal", "v4", Un("!", Ref("a"))))), "optimize": True, **C20},
+    trigger="cse-drops-name")
+add("C20", "F-alias-relabel", "open",
+    "Bundle b1 = { in2 }; relabels the input's constant combinator 'b1 (value=..)': the declared input in2 is no longer findable",
+    {"kind": "bundle", "prog": Program((S("in2", "steam", 4), Decl("Bundle", "b1", BLit((Ref("in2"),))))), "optimize": False, **C20},
+    trigger="alias-relabels-input")
+add("C20", "F-const-line", "open",
+    "some producers carry no source line (constants made from int expressions, bundle constants, bundle arithmetic): Signal v1 = k1 | in2.type is described '[<string>] v1 (value=0 (input))'",
+    {"kind": "scalar", "prog": Program((S("in2", "signal-A", 0), Decl("int", "k1", Num(0)), Decl("Signal", "v1", Proj(Ref("k1"), TypeOf("in2"))))), "optimize": False, **C20},
+    trigger="constant-description-without-line")
+add("C20", "F-call-alias", "open",
+    "a call whose result is just one of its Signal arguments (f(in1, in2, 1) with body `Signal t0 = in1p; return p2 > 0 : t0;`) leaves the result name unlabelled and without an anchor",
+    {"kind": "func", "prog": Program((S("in1", "signal-A", 0), S("in2", "signal-B", 0),
+        Func("f1", (("Signal", "q1"), ("Signal", "p1"), ("Signal", "p2")), (Decl("Signal", "t0", Ref("q1")), Return(Cond(Bin(">", Ref("p2"), Num(0)), Ref("t0"))))),
+        Decl("Signal", "r1", Call("f1", (Ref("in1"), Ref("in2"), Num(1)))))), "optimize": True, **C20},
+    trigger="call-result-aliases-input")
+add("C20", "F-bundle-alias", "open",
+    "an unconsumed alias of a bundle (Bundle b4 = b1;) is neither labelled nor anchored",
+    {"kind": "bundle", "prog": Program((S("in1", "steam", 2), Decl("Bundle", "b1", BLit((SigLit("electronic-circuit", Num(3)), Ref("in1")))),
+        Decl("Bundle", "b2", Bin("*", Ref("b1"), Num(2))), Decl("Bundle", "b4", Ref("b1")))), "optimize": False, **C20},
+    trigger="bundle-alias-not-exposed")
+add("C01", "F-three-same", "open",
+    "three sources carrying the same signal name at one combinator cannot be separated with two wire colours; the compiler only logs the "
+    "conflict: (in2 <= in1 || in3 <= 2) with three iron-plate inputs reads in2+in3 from green",
+    case01([S("in1", "iron-plate", 0), S("in2", "iron-plate", 0), S("in3", "iron-plate", 3),
+            Decl("Signal", "v1", Bin("||", Bin("<=", Ref("in2"), Ref("in1")), Bin("<=", Ref("in3"), Num(2))))], [{"in1": 0, "in2": 0, "in3": 3}]),
+    trigger="three-same-signal-sources")
+
+
 def main():
     import importlib
 
